@@ -72,13 +72,47 @@ def _default_env() -> str:
                  sorted(tpl) if isinstance(tpl, dict) else None))
 
 
+def _interpreter() -> dict[str, str]:
+    """Process-wide interpreter settings a library has no business changing while rendering."""
+    import decimal
+    import locale
+    import os
+    import warnings
+
+    c = decimal.getcontext()
+    out = {
+        "decimal.getcontext()": repr((c.prec, c.rounding, c.Emin, c.Emax, c.capitals, c.clamp,
+                                     sorted(str(t) for t, on in c.traps.items() if on))),
+        "sys.getrecursionlimit()": repr(sys.getrecursionlimit()),
+        "os.getcwd()": os.getcwd(),
+        "os.environ": repr(sorted((k, v) for k, v in os.environ.items() if k in ("TZ", "LANG", "LC_ALL", "LANGUAGE", "HOME"))),
+        "len(warnings.filters)": repr(len(warnings.filters)),
+    }
+    try:
+        out["locale.setlocale(LC_ALL)"] = locale.setlocale(locale.LC_ALL)
+    except Exception:  # noqa: BLE001
+        pass
+    if hasattr(sys, "get_int_max_str_digits"):
+        out["sys.get_int_max_str_digits()"] = repr(sys.get_int_max_str_digits())
+    return out
+
+
+def _restore_interpreter(name: str, old: dict[str, str]) -> None:
+    import decimal
+
+    if name == "decimal.getcontext()":
+        decimal.setcontext(decimal.Context(prec=28, rounding=decimal.ROUND_HALF_EVEN, traps=[
+            decimal.InvalidOperation, decimal.DivisionByZero, decimal.Overflow]))
+
+
 class Snapshot:
     def __init__(self) -> None:
+        self.interp = _interpreter()
         self.objs = _containers()
         self.saved = {k: (copy.copy(v), _canon(v)) for k, v in self.objs.items()}
         self.caches = _caches()
         self.denv = _default_env()
-        self.names = len(self.objs) + len(self.caches) + 1
+        self.names = len(self.objs) + len(self.caches) + 1 + len(self.interp)
 
     def changed(self, restore: bool = True) -> list[str]:
         """Names whose state differs from the snapshot (containers are restored in place)."""
@@ -101,6 +135,12 @@ class Snapshot:
             if self.caches.get(k, 0) != n:
                 out.append(f"{k}: {self.caches.get(k, 0)} -> {n} entries")
                 self.caches[k] = n
+        for k, v in _interpreter().items():
+            if self.interp.get(k) != v:
+                out.append(f"{k}: {self.interp.get(k)} -> {v}")
+                if restore:
+                    _restore_interpreter(k, self.interp)
+                    self.interp[k] = _interpreter().get(k, v)
         d = _default_env()
         if d != self.denv:
             out.append(f"liquid2.DEFAULT_ENVIRONMENT: {self.denv[:100]} -> {d[:100]}")
